@@ -174,6 +174,51 @@ def take_oracle(ctx, sp, pa):
                           trigger={'what': 'take rows'})
 
 
+def extended(sp, k):
+    """the same portfolio on a horizon that begins k steps earlier; every asset is given the original horizon as its window where it had
+    none (so nothing is active in the added steps), price / capacity arrays are padded in front"""
+    import pandas as pd
+    v = copy.deepcopy(sp)
+    g = v['grid']
+    step = gen.freq_td(g['freq'])
+    s0 = pd.Timestamp(g['start'])
+    for a in v['assets']:
+        for b in [a] + ([a['base']] if a['kind'] == 'ScaledAsset' else []) + (a['assets'] if a['kind'] == 'StructuredAsset' else []):
+            b.setdefault('start', g['start'])
+            b.setdefault('end', g['end'])
+    w = copy.deepcopy(v)
+    w['grid'] = dict(g, start=gen.fmt(s0 - k * step), T=g['T'] + k)
+    w['prices'] = {key: [arr[0]] * k + list(arr) for key, arr in v['prices'].items()}
+    v['id'] = sp['id'] + '+win'
+    w['id'] = sp['id'] + '+ext'
+    return v, w
+
+
+def extension_oracle(ctx, sp, k, ow, oe):
+    """horizon steps in which no asset is active change neither the optimum nor the dispatch inside the windows"""
+    ctx.cov['impl_oracle_evaluations'] += 1
+    payload = {'spec': sp, 'steps added in front': k}
+    if ow.get('status') != 'ok' or ow.get('solve') != 'optimal':
+        return
+    if oe.get('status') != 'ok':
+        ctx.violation('impl-violation', dict(payload, observed='set-up fails on the longer horizon: ' + str(oe.get('error')), expected='same portfolio, same result'),
+                      trigger={'what': 'longer horizon breaks set-up'})
+        return
+    bad = {}
+    if oe.get('solve') != 'optimal':
+        bad['solver status on the longer horizon'] = oe.get('solve')
+    elif abs(oe['value'] - ow['value']) > 1e-6 * (1 + abs(ow['value'])):
+        bad['optimal value'] = {'horizon = windows': ow['value'], 'horizon begins earlier': oe['value']}
+    elif oe.get('out'):
+        for col, vals in oe['out']['dispatch'].items():
+            if any(abs(x or 0.0) > 1e-7 * (1 + abs(ow['value'])) for x in vals[:k]):
+                bad['dispatch in the added steps'] = [col, vals[:k]]
+                break
+    if bad:
+        ctx.violation('impl-violation', dict(payload, observed=bad, expected='steps before every window change neither value nor dispatch'),
+                      trigger={'what': 'horizon extension: ' + sorted(bad)[0]})
+
+
 def block_sizes(pa):
     return [len(r['problem']['c']) if r['status'] == 'ok' else None for r in pa['assets']]
 
@@ -289,5 +334,22 @@ def run(ctx):
         if pv.get('status') == 'ok':
             take_oracle(ctx, va, pv)
         ctx.sample({'spec': sp, 'outside_element': d})
+    # ---- the horizon begins earlier, nothing is active there (storages in time blocks, units with run-time rows, inflow, discounting ...)
+    import random as _rn
+    hx = gen.gen_many(ctx.seed, n // 2, dict(CFG, tzs=[None], freqs=['h', '30min'], p_coarse=0.0, p_blocks=0.5, p_window=0.5, window_kinds=['inside', 'left', 'right'], p_wacc=0.0,
+                                             kinds={'Storage': 4, 'SimpleContract': 2, 'Contract': 1, 'Transport': 2, 'ScaledAsset': 1}, T=(6, 10), p_unaligned_end=0.0), 'c08hx_')
+    hx += gen.gen_many_plants(ctx.seed, n // 4, dict(CFG, freqs=['h'], units=['h'], tzs=[None], T=(5, 8), p_unaligned_end=0.0, p_window_plant=0.5, p_profile=0.0, p_coarse=0.0, p_periodic=0.0,
+                                                     p_inflow=0.0, p_wacc=0.0), 'c08hxp_')
+    hx = [sp for sp in ctx.specs(hx) if not sp['id'].endswith(('+win', '+ext'))]
+    for sp in hx:
+        for a in sp['assets']:
+            a.pop('wacc', None)          # (discounting counts from the start of the horizon by definition)
+            if a['kind'] == 'ScaledAsset':
+                a['base'].pop('wacc', None)
+    ks = [_rn.Random(str(sp['seed']) + '/ext').randint(1, 5) for sp in hx]
+    pairs_x = [extended(sp, k_) for sp, k_ in zip(hx, ks)]
+    rx = C.run_impl('portfolio', [p_[0] for p_ in pairs_x] + [p_[1] for p_ in pairs_x]) if hx else []
+    for i_, (sp, k_) in enumerate(zip(hx, ks)):
+        extension_oracle(ctx, sp, k_, rx[i_], rx[len(hx) + i_])
     # model builders vs. implementation on all these assets (restricted grids, take rows with prorating, orders)
     util.asset_corr(ctx, allspecs, parts, 'C08')
